@@ -78,7 +78,7 @@ class Wrappers:
             return out
         f = "vec_znx_rotate" if kind == "rot" else "vec_znx_automorphism"
         for mk in self.mods:
-            out += [(f, mk, False), (f, mk, True)]
+            out += [(f, mk, False), (f, mk, True), (f, mk, "one")]
         g = "vec_znx_big_rotate" if kind == "rot" else "vec_znx_big_automorphism"
         for mk in ("fft64", "fft64-generic"):
             if mk in self.mods:
@@ -90,6 +90,11 @@ class Wrappers:
         big = "big" in f
         sl = n if big else n + 3
         mod = self.mods[mk]
+        if inplace == "one":    # one limb in place: the strides are nominal (never used to address a second limb) and differ
+            a = Buf(8 * n, fill=0x33)
+            a.i64[:] = x
+            L.call(f, mod, p, a, 1, n, a, 1, 2 * n)
+            return a.i64.copy() if a.canaries_ok() else None
         a = Buf(8 * 2 * sl, fill=0x33)
         av = a.i64
         av[0:n] = x
@@ -229,7 +234,7 @@ def drive_b(rec, n, full, quick):
                     continue
                 got = W.run(f, mk, ip, p, probe)
                 groups.setdefault(None if got is None else got.tobytes(), []).append(
-                    "%s[%s%s]" % (f, mk, ",inplace" if ip else ""))
+                    "%s[%s%s]" % (f, mk, (",inplace, one limb, res_sl != a_sl" if ip == "one" else ",inplace") if ip else ""))
                 rec.case((f, mk, ip, n, p % (2 * n) if full else p))
             for key, names in groups.items():
                 if key is None:
